@@ -121,6 +121,8 @@ pub struct Ctx {
     gates: Vec<GateSt>,
     /// user code panics in the SYNCHRONOUS part of the call (before a future is returned) where it can
     eager: bool,
+    /// the runner's stream is polled by `Cucumber::run`'s own loop: poll boundaries of the INNER stream are not visible
+    via_cucumber: bool,
     /// callbacks of scenarios currently inside user code (for C06/C07 monitors)
     pub epoch: Instant,
 }
@@ -158,6 +160,11 @@ fn sink(line: &str) {
                 }
             }
             c.log.push(l.to_owned());
+            // driven through `Cucumber::run`, the inner stream may be polled several times per poll of the future the
+            // harness sees, so "the stream returned Pending after the idle wait" cannot be observed: grant it
+            if c.via_cucumber && (l == "IDLE yield" || l == "IDLE slept") {
+                c.log.push("POLL".to_owned());
+            }
         });
     }
 }
@@ -453,6 +460,10 @@ pub struct RunCfg {
     /// resolve as by default. Only used by the monitor-only family `sched.custom` (the scheduler MODEL resolves
     /// retry options from tags, so its acceptor classes are not compared there).
     pub custom_retry: bool,
+    /// build and run the runner THROUGH the `Cucumber` builder (src/cucumber.rs: the delegating methods `steps`,
+    /// `max_concurrent_scenarios`, `retries`, `retry_after`, `fail_fast`, `which_scenario`, `before`, `after`,
+    /// `retry_options`, `with_cli`, and `run`'s event loop) instead of using `runner::Basic` directly
+    pub via_cucumber: bool,
 }
 
 impl Default for RunCfg {
@@ -474,6 +485,7 @@ impl Default for RunCfg {
             gate_delay_us: 0,
             eager: false,
             custom_retry: false,
+            via_cucumber: false,
             env_script: vec![],
         }
     }
@@ -543,6 +555,7 @@ pub fn run(
             next_wid: 0,
             gates: vec![],
             eager: cfg.eager,
+            via_cucumber: cfg.via_cucumber,
             epoch: Instant::now(),
         });
     });
@@ -555,6 +568,12 @@ pub fn run(
         .given(None, Regex::new("^amb ").unwrap(), step_fn)
         .given(None, Regex::new("^amb .*$").unwrap(), step_fn);
 
+    if cfg.via_cucumber {
+        let out = run_via_cucumber(cfg, parser_script, coll, rng);
+        cucumber::verif::set_sink(None);
+        let log = CTX.with(|c| c.borrow_mut().take().unwrap().log);
+        return RunOut { log, ..out };
+    }
     let mut b = runner::Basic::<RW>::default().steps(coll);
     if let Some(c) = cfg.builder_conc {
         b = b.max_concurrent_scenarios(c);
@@ -851,4 +870,97 @@ pub fn build_feature(f: &RFeat) -> gherkin::Feature {
         }
     }
     g
+}
+
+
+// ---------------------------------------------------------------------------
+// the same run, built and driven through the `Cucumber` builder
+
+struct AsParser(ScriptedParser);
+impl cucumber::Parser<()> for AsParser {
+    type Cli = cucumber::cli::Empty;
+    type Output = ScriptedParser;
+    fn parse(self, _: (), _: cucumber::cli::Empty) -> ScriptedParser { self.0 }
+}
+
+type EvQueue = std::rc::Rc<RefCell<std::collections::VecDeque<parser::Result<Event<Cucumber<RW>>>>>>;
+
+/// the writer end of the pipeline: hands every event to the harness' poll loop
+struct QueueWriter(EvQueue);
+impl cucumber::Writer<RW> for QueueWriter {
+    type Cli = cucumber::cli::Empty;
+    async fn handle_event(&mut self, ev: parser::Result<Event<Cucumber<RW>>>, _: &cucumber::cli::Empty) {
+        self.0.borrow_mut().push_back(ev);
+    }
+}
+impl cucumber::writer::Normalized for QueueWriter {}
+
+/// `Cucumber::run` as a stream of the events its writer received
+struct FutStream<F> { fut: Pin<Box<F>>, q: EvQueue, done: bool }
+impl<F: std::future::Future> Stream for FutStream<F> {
+    type Item = parser::Result<Event<Cucumber<RW>>>;
+    fn poll_next(mut self: Pin<&mut Self>, cx: &mut Context<'_>) -> Poll<Option<Self::Item>> {
+        if let Some(e) = self.q.borrow_mut().pop_front() { return Poll::Ready(Some(e)); }
+        if self.done { return Poll::Ready(None); }
+        let this = &mut *self;
+        if this.fut.as_mut().poll(cx).is_ready() { this.done = true; }
+        if let Some(e) = this.q.borrow_mut().pop_front() { return Poll::Ready(Some(e)); }
+        if this.done { Poll::Ready(None) } else { Poll::Pending }
+    }
+}
+
+fn run_via_cucumber(cfg: &RunCfg, parser_script: ScriptedParser, coll: step::Collection<RW>, rng: &mut Rng) -> RunOut {
+    let q: EvQueue = std::rc::Rc::default();
+    let mut cu = cucumber::Cucumber::<RW, _, (), _, _, cucumber::cli::Empty>::custom(
+        AsParser(parser_script), runner::Basic::<RW>::default(), QueueWriter(std::rc::Rc::clone(&q)),
+    ).steps(coll);
+    if let Some(c) = cfg.builder_conc {
+        cu = cu.max_concurrent_scenarios(c);
+    }
+    cu = cu.retries(cfg.builder_retries).retry_after(cfg.builder_after);
+    if cfg.builder_ff {
+        cu = cu.fail_fast();
+    }
+    if cfg.custom_retry {
+        cu = cu.retry_options(|f, r, s, cli| {
+            let mk = |current, left| runner::basic::RetryOptions { retries: cucumber::event::Retries { current, left }, after: None };
+            if s.tags.iter().any(|t| t == "cr1") { Some(mk(1, 0)) }
+            else if s.tags.iter().any(|t| t == "cr2") { Some(mk(2, 1)) }
+            else { runner::basic::RetryOptions::parse_from_tags(f, r, s, cli) }
+        });
+    }
+    let opts = cucumber::cli::Opts::<cucumber::cli::Empty, runner::basic::Cli, cucumber::cli::Empty, cucumber::cli::Empty> {
+        re_filter: None,
+        tags_filter: None,
+        parser: cucumber::cli::Empty,
+        runner: runner::basic::Cli {
+            concurrency: cfg.cli_conc,
+            fail_fast: cfg.cli_ff,
+            retry: cfg.cli_retries,
+            retry_after: cfg.cli_after,
+            retry_tag_filter: None,
+        },
+        writer: cucumber::cli::Empty,
+        custom: cucumber::cli::Empty,
+    };
+    let which = |f: &gherkin::Feature, r: Option<&gherkin::Rule>, s: &gherkin::Scenario| {
+        let tagged = s.tags.iter().chain(r.iter().flat_map(|r| &r.tags)).chain(&f.tags).any(|t| t == "xserial");
+        if tagged { runner::ScenarioType::Serial } else { runner::ScenarioType::Concurrent }
+    };
+    macro_rules! go {
+        ($cu:expr) => {{
+            let fut = $cu.with_cli(opts).run(());
+            drive(FutStream { fut: Box::pin(fut), q: std::rc::Rc::clone(&q), done: false }, cfg, rng)
+        }};
+    }
+    match (cfg.has_before, cfg.has_after, cfg.custom_which) {
+        (false, false, false) => go!(cu),
+        (true, false, false) => go!(cu.before(before_hook)),
+        (false, true, false) => go!(cu.after(after_hook)),
+        (true, true, false) => go!(cu.before(before_hook).after(after_hook)),
+        (false, false, true) => go!(cu.which_scenario(which)),
+        (true, false, true) => go!(cu.which_scenario(which).before(before_hook)),
+        (false, true, true) => go!(cu.which_scenario(which).after(after_hook)),
+        (true, true, true) => go!(cu.which_scenario(which).before(before_hook).after(after_hook)),
+    }
 }
